@@ -3,7 +3,7 @@ Oracle/C06.lean — line-protocol oracle for property C06 (core only; compiled t
 
   mux <stream> <events> <tags> <tags without payload> => <results>
       stream  = frames the fake broker sent on the Conn, in order: id:tag,…
-      events  = the recorded C.* hook events: W<tag>:<ok>:<id> T<seq> Y<seq>:<seen> L<seq>:<seen> E<seq> F<seq>:<ok|kafka|io>
+      events  = the recorded C.* hook events: W<tag>:<ok>:<id> T<seq> Y<seq>:<seen> L<seq>:<seen> E<seq> F<seq>:<ok|kafka|io> K (Conn.Close)
       tags    = the tags of the API calls the harness made (tag 0 = internal ApiVersions exchanges)
       model   = trace acceptance through Model/ConnMux.step (`reject@i:<event>` names the first event the model
                 cannot take), then for every tag the result the model's final state gives that call
@@ -15,6 +15,7 @@ import KafkaVerif.Base.Proto
 import KafkaVerif.Model.ConnMux
 import KafkaVerif.Model.TransportConn
 import KafkaVerif.Spec.MuxMonitor
+import KafkaVerif.Model.BatchBytes
 
 namespace KV.OracleC06
 open KV
@@ -54,6 +55,7 @@ def parseEvent (s : String) : Option Event :=
   | "F", [q, "ok"] => q.toNat?.map (.finish · .ok)
   | "F", [q, "kafka"] => q.toNat?.map (.finish · .kafka)
   | "F", [q, "io"] => q.toNat?.map (.finish · .io)
+  | "K", _ => some .close
   | _, _ => none
 
 /-- the same events as the reference monitor reads them -/
@@ -148,12 +150,64 @@ def handle (journals events tags impl : String) : String :=
 
 end TConn
 
+namespace BB
+open KV.Reader KV.BatchBytes
+
+def showErr : BErr → String
+  | .eof => "eof"
+  | .shortBuffer => "short"
+  | .unexpectedEOF => "ueof"
+  | .kafka c => s!"k{c}"
+  | .other => "other"
+
+def hexOrDash (b : Bytes) : String := if b.isEmpty then "-" else toHex b
+
+def showRes : OpRes → String
+  | .msg off k v => s!"m:{off}:{hexOrDash k}:{hexOrDash v}"
+  | .data n c short => s!"d:{n}:{hexOrDash c}:{if short then 1 else 0}"
+  | .fail e => s!"e:{showErr e}"
+
+def parseOp (s : String) : Option Op :=
+  if s == "rm" then some .readMessage
+  else if s.startsWith "rd" then (s.drop 2).toString.toNat?.map .read
+  else none
+
+/-- `bb <ver> <offset> <declared size> <stream hex> <ops> => <results>;<close>;<kept>;<consumed>`
+model = Model/BatchBytes.fetchBatch on the same bytes; holds = a kept conn consumed exactly the declared frame -/
+def handle (ver offset declared stream ops impl : String) : String :=
+  match ver.toNat?, offset.toInt?, declared.toNat?, ofHex stream, (commaList ops).mapM parseOp with
+  | some v, some off, some sz, some inp, some os =>
+    let r := fetchBatch false v off 100000 os ⟨inp, sz⟩
+    -- `Batch.Read` returns (0, io.ErrShortBuffer) once that error is sticky: the driver cannot tell it from a short read
+    let shown := (os.zip r.results).map fun (o, x) =>
+      match o, x with
+      | .read _, .fail .shortBuffer => "d:0:-:1"
+      | _, x => showRes x
+    let res := if shown.isEmpty then "-" else ",".intercalate shown
+    let ce := match r.closeErr with | none => "nil" | some e => showErr e
+    let consumed : Int := if r.kept then (inp.length - r.rs.inp.length : Nat) else -1
+    let model := s!"{res};{ce};{if r.kept then 1 else 0};{consumed}"
+    let holds := match impl.splitOn ";" with
+      | [_, _, kept, consumed] => kept != "1" || consumed == toString sz || inp.length < sz
+      | _ => false
+    answer model holds
+  | _, _, _, _, _ => "bad-op"
+
+end BB
+
 def step (line : String) : String :=
   match line.splitOn " => " with
   | [req, impl] =>
     match words req with
     | ["mux", stream, events, tags, noPayload] => Mux.handle stream events tags noPayload impl
     | ["tconn", journals, events, tags] => TConn.handle journals events tags impl
+    | ["bb", ver, offset, declared, stream, ops] => BB.handle ver offset declared stream ops impl
+    | ["bbc", _, _, declared, stream, _] =>
+      -- paths without a result-level model (record batches, compression): only the conclusion of
+      -- `wire_discipline_consumes_frame` is applied to what was observed — a kept Conn consumed the declared frame
+      match declared.toNat?, ofHex stream, impl.splitOn ";" with
+      | some sz, some inp, [kept, consumed] => answer impl (kept != "1" || consumed == toString sz || inp.length < sz)
+      | _, _, _ => "bad-op"
     | _ => "bad-op"
   | _ => "bad-op"
 
